@@ -5,6 +5,7 @@ from .. import bootstrap  # noqa: F401
 from .. import inject
 from ..models import fluid
 
+import usim
 from usim import Pipe, UnboundedPipe, time
 
 PROPERTY = 'C13'
@@ -125,6 +126,16 @@ class PipeChecker:
                         % (name, got, exact_f, exact, removals))
 
 
+def earlier_simulation(pipe):
+    """a complete, separate run() in which the same pipe object was congested and drained"""
+    async def main():
+        async with usim.Scope() as scope:
+            scope.do(pipe.transfer(3))
+            scope.do(pipe.transfer(1, 0.5))
+            scope.do(pipe.transfer(2))
+    usim.run(main())
+
+
 def build_for(case):
     scenario = case['scenario']
 
@@ -135,6 +146,8 @@ def build_for(case):
             pipe = Pipe(throughput=float('inf'))    # a regular pipe that never congests
         else:
             pipe = Pipe(throughput=scenario['throughput'])
+        if case['index'] % 5 < 2:
+            earlier_simulation(pipe)
         checker = PipeChecker(arena, pipe, scenario)
 
         def user(spec):
